@@ -263,6 +263,11 @@ def _build(case, sel=None, rng=None):
         nt = nr = n
         ai = rai = None
         ia = ir = np.arange(n)
+        if case.get("kind") in ("rmsd", "superpose") and (case["seed"] // 11) % 6 == 0:
+            # every target atom, in order, against a reference whose atoms are numbered differently: only
+            # ref_atom_indices is passed
+            ir = rng.permutation(n)
+            rai = ir
     elif sel in ("same-sorted", "same-shuffled"):
         nt = nr = n + ext
         ia = rng.permutation(nt)[:n]
@@ -287,6 +292,8 @@ def _build(case, sel=None, rng=None):
     w.X = X.astype(np.float32)
     w.Y = Y.astype(np.float32)
     w.ai, w.rai, w.ia, w.ir = ai, rai, ia, ir
+    global _LAST
+    _LAST = w
     return w
 
 
@@ -456,9 +463,29 @@ def _judge_superposed(ctx, before, after, w, prs, label):
 
 def _superpose(w, parallel=True, X=None):
     t = _traj(w.X if X is None else X)
+    if getattr(w, "selfref", False):
+        # the reference is the very trajectory that is being superposed (a frame of itself)
+        out = t.superpose(t, frame=w.frame, parallel=parallel, **_kw(w))
+        return np.array(out.xyz, copy=True), True
     ref = _traj(w.Y)
     out = t.superpose(ref, frame=w.frame, parallel=parallel, **_kw(w))
     return np.array(out.xyz, copy=True), bool(_bits(ref.xyz, w.Y))
+
+
+def _make_selfref(w):
+    """turn the (target, reference) pair into one trajectory that is fitted onto one of its own frames: the reference
+    atoms are a separate selection `rai` of that frame (e.g. copy B of a dimer as template for copy A)."""
+    rng = w.rng
+    nt = w.X.shape[1]
+    n = len(w.ia)
+    ir2 = rng.permutation(nt)[:n] if rng.random() < 0.8 else np.array(w.ia).copy()
+    frame = int(rng.integers(0, w.X.shape[0]))
+    X = w.X.copy()
+    X[frame, ir2] = w.Y[w.frame, w.ir]
+    w.X, w.Y, w.frame, w.ir = X, X.copy(), frame, ir2
+    w.rai = None if (np.array_equal(ir2, w.ia) and rng.random() < 0.5) else ir2
+    w.selfref = True
+    return w
 
 
 def _rmsd(w, parallel=True, precentered=False, X=None, Y=None):
@@ -638,6 +665,9 @@ def _run_precentered(case, ctx):
 
 def _run_superpose(case, ctx):
     w = _build(case)
+    if (case["seed"] // 7) % 3 == 0:
+        w = _make_selfref(w)
+        ctx.observe("superpose.reference", "a frame of the same Trajectory object" + ("" if w.rai is None else ", own ref_atom_indices"))
     ctx.observe("selection", case["sel"] + ("" if w.rai is None or w.ai is None else "+explicit-ref"))
     prs = _pairs(w)
     a1, ref_same = _superpose(w, True)
@@ -917,6 +947,23 @@ RUN = {"alignment": _run_alignment, "rmsd": _run_rmsd, "relations": _run_relatio
        "rmsf": _run_rmsf, "threads": _run_threads, "junk": _run_junk, "lprmsd": _run_lprmsd}
 
 
+_LAST = None
+
+
 def run_case(case, ctx):
+    global _LAST
     _observe_case(case, ctx)
-    RUN[case["kind"]](case, ctx)
+    _LAST = None
+    try:
+        RUN[case["kind"]](case, ctx)
+    except TypeError as e:
+        import traceback
+        w = _LAST
+        if "'slice' has no len()" in str(e) and w is not None and w.ai is None and w.rai is not None:
+            tb = traceback.format_exc()
+            fn = "superpose" if "in superpose" in tb else "rmsd"
+            ctx.violation("selection.honoured", f"{fn}:ref_atom_indices-without-atom_indices:raises:TypeError",
+                          f"md.{fn if fn == 'rmsd' else 'Trajectory.superpose'}(..., ref_atom_indices=<array>) with atom_indices left at None (all atoms) "
+                          f"raises TypeError({e}) instead of pairing all target atoms with the given reference atoms")
+        else:
+            raise
